@@ -70,7 +70,7 @@ def run(tier, wd):
     # 3. the recorded runs are validated by TLC against Values.tla with ok := strconv's verdict (binding B)
     abstracts = []
     for c, (route, multi), r in zip(cases, meta, results):
-        if r.get("hang") or r.get("crash"):
+        if r.get("hang") or r.get("crash") or r.get("skipped"):
             abstracts.append({"multi": multi, "envs": [], "cli": []})
             continue
         def ok(t):
@@ -86,6 +86,8 @@ def run(tier, wd):
     for c, (route, multi), r, pc, pd in zip(cases, meta, results, clean, dev):
         rep.cov["evaluations"] += 1
         send_c = {k: v for k, v in c.items() if not k.startswith("_")}
+        if r.get("skipped"):
+            continue
         if r.get("hang") or r.get("crash"):
             rep.violation("%s: %s" % (vc.describe(c), r), {"engine": "values", "case": send_c, "kind": "dead"})
             continue
